@@ -48,8 +48,16 @@ Space == LET d0 == Doc(file0, CfgAt(clk)) IN
 BlankWrappers == LET d0 == Doc(file0, CfgAt(clk)) IN
   \E e \in d0.elems : e.uw /\ e.m >= 2 /\ IsBlankLine(LineText(file0, d0.br, e.lo + 1)) /\ IsBlankLine(LineText(file0, d0.br, e.lc - 1))
 
+\* the second recorded finding (KnownFindings!KF_C19_BlankWrapperLead), same definition
+BlankWrapperLead == LET d0 == Doc(file0, CfgAt(clk)) IN
+  \E e \in d0.elems :
+     /\ e.uw /\ e.m >= 2 /\ IsBlankLine(LineText(file0, d0.br, e.lo + 1))
+     /\ \E x \in d0.elems : LET k == e.lo + 2 IN
+           /\ LineOf(d0.br, x.os) = k /\ LineOf(d0.br, x.ce - 1) = k
+           /\ AllBlank(Slice(file0, LineS(d0.br, k), x.os)) /\ ~AllBlank(Slice(file0, x.ce, LineE(file0, d0.br, k)))
+
 Idempotent == (phase = "run" /\ fresh /\ Space) => ImplClean(cur, CfgAt(clk)).out = cur
-Composes   == (phase = "run" /\ fresh /\ Space /\ ~BlankWrappers) => NonWs(cur) = NonWs(ImplClean(file0, CfgAt(clk)).out)
+Composes   == (phase = "run" /\ fresh /\ Space /\ ~BlankWrappers /\ ~BlankWrapperLead) => NonWs(cur) = NonWs(ImplClean(file0, CfgAt(clk)).out)
 \* without the exclusion TLC reproduces the recorded finding at model level (used by bin/selftest)
 ComposesStrict == (phase = "run" /\ fresh /\ Space) => NonWs(cur) = NonWs(ImplClean(file0, CfgAt(clk)).out)
 Monotone   == (phase = "run" /\ fresh) => IsSubseq(NonWs(cur), NonWs(prev))
